@@ -127,14 +127,14 @@ def nesting_cases(run, tier_q):
 def run(run):
     proofs_ok = core.proof_stage(run, "Props/C01.v")
     tier_q = run.tier == "quick"
-    cases = stmt.gen_cases(run, stmt.DIALECTS[:4] if tier_q else stmt.DIALECTS, 500 if tier_q else 6000)
+    cases = stmt.gen_cases(run, stmt.DIALECTS, 290 if tier_q else 6000)
     dis, fails, known = roundtrip_cases(run, cases, "round trip")
     # statements of the structure-aware generator (windows with every frame shape, CASE / CAST / EXTRACT, nested queries, WITH, Hive clauses, brackets)
     g = stgen.G(run.rng)
     scases = []
     for i in range(300 if tier_q else 4000):
         t = g.statement()[0] if i % 8 else g.paren_case()[0]
-        scases.append(("HIVE" if g.hive else run.rng.choice(["MYSQL", "DEFAULT", "HIVE", "DB2"] if tier_q else stmt.DIALECTS), t))
+        scases.append(("HIVE" if g.hive else run.rng.choice(stmt.DIALECTS), t))
     d0, f0, k0 = roundtrip_cases(run, scases, "round trip: structure-aware statements")
     dis += d0
     fails += f0
